@@ -129,6 +129,10 @@ class RawPayloadDecoder(AbstractSimplePayloadDecoder):
 
             value = component
 
+        if value is noValue:
+            raise error.PyAsn1Error(
+                'No component inside explicitly tagged %s' % (tagSet,))
+
         yield value
 
 
